@@ -124,17 +124,18 @@ def compare_case(ctx, case, o, prof):
     return bad
 
 
-def entry_events(o, events):
+def entry_events(case, o, events):
     """(kind, entry type, format, length, address size) of every entry gimli read back; the
     padding rule is judged on them by FrameWriterTrace (V binding)."""
     for kind in ("debug", "eh"):
         g = o.get(kind) or {}
         if not g.get("ok"):
             continue
+        npre = len((case.get("pre") or {}).get(kind) or [])
         for y in (g.get("read") or {}).get("ents", []):
             c = y if y.get("t") == "cie" else y.get("cie")
-            if not c:
-                continue
+            if not c or y.get("off", 0) < npre:
+                continue          # an entry of the pre-existing section contents, not written by the table
             k = (kind, y["t"], c["fmt"], y["len"], c["asz"])
             events[k] = events.get(k, 0) + 1
 
@@ -161,7 +162,7 @@ def run(ctx):
                 for sig, text in compare_case(ctx, case, o, prof):
                     ctx.violation(sig, text, case, o)
                 if "outcome" not in o:
-                    entry_events(o, events)
+                    entry_events(case, o, events)
                 if case["exp"]["debug"]["ok"] or case["exp"]["eh"]["ok"]:
                     ctx.nontrivial(canon([case["adds"], case["fdes"], case["le"]]))
                     if not nsample.get(fam):
